@@ -182,7 +182,7 @@ class _IrSem(irsem.IrSem):
 class WasmHarness(Harness):
     prove_fresh_smt = True     # cvc5 fallback gets the original assertions (symx/solve.py)
     prove_uf_first = True      # equal operands => equal products / quotients by congruence (symx/solve.py)
-    max_paths = 3000
+    max_paths = 400
     max_decisions = 600
     cut_allowance = 10 ** 6
     timeout_ms = 20000
@@ -216,7 +216,7 @@ class WasmHarness(Harness):
             self.t0 = time.time()
         tier = os.environ.get("VERIF_TIER_ACTIVE", "quick")
         if core.ENG is not None and time.time() - self.t0 > 0.8 * JOB_TIMEOUT.get(tier, 280):
-            raise core.EngineError("job time budget exhausted before all paths were explored")
+            raise core.PathCut("job time budget")     # remaining paths are cut and counted (evidence: cut_paths, exhaustive=false)
         src = wasmprogs.source(self.prog)
         fname, ps, rs = wasmprogs.entry(self.prog)
         info = module_info(Module(src))
